@@ -60,6 +60,18 @@ fn out_items(toks: &[Token]) -> Option<String> {
     Some(if v.is_empty() { "-".into() } else { v.join(";") })
 }
 
+/// a random indentation setting; returns the text of one indentation level
+fn pick_indent(r: &mut Rng, c: &mut stylua_lib::Config) -> String {
+    if r.chance(1, 2) {
+        c.indent_type = stylua_lib::IndentType::Tabs;
+        "\t".to_string()
+    } else {
+        c.indent_type = stylua_lib::IndentType::Spaces;
+        c.indent_width = [2, 3, 4, 8][r.below(4)];
+        " ".repeat(c.indent_width)
+    }
+}
+
 pub fn run(tier: &str, seed: u64) -> Sink {
     let n = if tier == "thorough" { 40000 } else { 6000 };
     let stmts: [(&str, usize, bool); 6] = [
@@ -319,6 +331,7 @@ pub fn run_hang(tier: &str, seed: u64) -> Sink {
         c.syntax = LuaVersion::Lua51;
         let crlf = r.chance(1, 3);
         c.line_endings = if crlf { LineEndings::Windows } else { LineEndings::Unix };
+        let ind = pick_indent(&mut r, &mut c);
         if !parses(&src, c.syntax) {
             return sink;
         }
@@ -356,7 +369,7 @@ pub fn run_hang(tier: &str, seed: u64) -> Sink {
             if a > b {
                 return sink;
             }
-            let indent = if nested { "\t\t" } else { "\t" };
+            let indent = if nested { ind.repeat(2) } else { ind.clone() };
             // comments on the operator itself force the hanging path (binop_expression_contains_comments); with comments
             // only in front of the right operand the layout may keep the operator where it is - then hang_binop did not run
             let eol = if crlf { "\r\n" } else { "\n" };
@@ -466,6 +479,7 @@ pub fn run_fieldkey(tier: &str, seed: u64) -> Sink {
         c.syntax = LuaVersion::Lua51;
         let crlf = r.chance(1, 3);
         c.line_endings = if crlf { LineEndings::Windows } else { LineEndings::Unix };
+        let ind = pick_indent(&mut r, &mut c);
         if !parses(&src, c.syntax) {
             return sink;
         }
@@ -508,14 +522,14 @@ pub fn run_fieldkey(tier: &str, seed: u64) -> Sink {
         }
         if let Outcome::Ok(out) = fmt(&src, c, None, false) {
             let eol = if crlf { "\r\n" } else { "\n" };
-            let head = format!("local tbl = {{{}\tfirst_field = 1,{}", eol, eol);
+            let head = format!("local tbl = {{{}{}first_field = 1,{}", eol, ind, eol);
             let kpos = match out.rfind(key_text) { Some(p) => p, None => return sink };
             if !out.starts_with(&head) || kpos < head.len() {
                 sink.v("C03", "fieldkey:first-field-changed", json!({"input": src, "config": cfg_to_string(&c), "output": out}));
                 return sink;
             }
             sink.q(
-                format!("fieldkey {} {} {} {} {} {} {}", if crlf { "crlf" } else { "lf" }, hex(b"\t"), if bracket { "bracket" } else { "name" }, key_lead, key_trail, eq_lead, eq_trail),
+                format!("fieldkey {} {} {} {} {} {} {}", if crlf { "crlf" } else { "lf" }, hex(ind.as_bytes()), if bracket { "bracket" } else { "name" }, key_lead, key_trail, eq_lead, eq_trail),
                 { let s = &out[head.len()..kpos]; if s.is_empty() { "-".to_string() } else { hex(s.as_bytes()) } },
             );
             if !out[kpos..].starts_with(&format!("{} = value_name", key_text)) {
@@ -580,6 +594,7 @@ pub fn run_endtoken(tier: &str, seed: u64) -> Sink {
         c.syntax = LuaVersion::Lua51;
         let crlf = r.chance(1, 3);
         c.line_endings = if crlf { LineEndings::Windows } else { LineEndings::Unix };
+        let ind = pick_indent(&mut r, &mut c);
         if !parses(&src, c.syntax) {
             return sink;
         }
@@ -601,7 +616,7 @@ pub fn run_endtoken(tier: &str, seed: u64) -> Sink {
         let items = triv_items(&toks[k..ci]);
         if let Outcome::Ok(out) = fmt(&src, c, None, false) {
             let eol = if crlf { "\r\n" } else { "\n" };
-            let stmt = format!("\tlocal aa = 0{}", eol);
+            let stmt = format!("{}local aa = 0{}", ind, eol);
             let a = match out.find(&stmt) { Some(p) => p + stmt.len(), None => return sink };
             let closing = format!("{}{}{}", closer, tail, eol);
             if !out.ends_with(&closing) || out.len() - closing.len() < a {
@@ -610,7 +625,7 @@ pub fn run_endtoken(tier: &str, seed: u64) -> Sink {
             }
             let s = &out[a..out.len() - closing.len()];
             sink.q(
-                format!("endtoken {} {} {}", if crlf { "crlf" } else { "lf" }, hex(b"\t"), items),
+                format!("endtoken {} {} {}", if crlf { "crlf" } else { "lf" }, hex(ind.as_bytes()), items),
                 if s.is_empty() { "-".to_string() } else { hex(s.as_bytes()) },
             );
         }
@@ -695,6 +710,7 @@ pub fn run_punct(tier: &str, seed: u64) -> Sink {
         c.syntax = LuaVersion::Lua51;
         let crlf = r.chance(1, 3);
         c.line_endings = if crlf { LineEndings::Windows } else { LineEndings::Unix };
+        let ind = pick_indent(&mut r, &mut c);
         if !parses(&src, c.syntax) {
             return sink;
         }
@@ -731,7 +747,7 @@ pub fn run_punct(tier: &str, seed: u64) -> Sink {
             }
             sink.q(
                 // the comma takes the shape of the first value: the block's for `return`, the hanging one for an assignment
-                format!("punct {} {} {} {} {} {} {}", if crlf { "crlf" } else { "lf" }, if head == "return " { "-".to_string() } else { hex(b"\t") }, hex(b"\t"), v_trail, p_lead, p_trail, n_lead),
+                format!("punct {} {} {} {} {} {} {}", if crlf { "crlf" } else { "lf" }, if head == "return " { "-".to_string() } else { hex(ind.as_bytes()) }, hex(ind.as_bytes()), v_trail, p_lead, p_trail, n_lead),
                 hex(out[a..b].as_bytes()),
             );
         }
@@ -968,6 +984,7 @@ pub fn run_tablefield(tier: &str, seed: u64) -> Sink {
         c.syntax = LuaVersion::Lua51;
         let crlf = r.chance(1, 3);
         c.line_endings = if crlf { LineEndings::Windows } else { LineEndings::Unix };
+        let ind = pick_indent(&mut r, &mut c);
         if !parses(&src, c.syntax) {
             return sink;
         }
@@ -1004,13 +1021,14 @@ pub fn run_tablefield(tier: &str, seed: u64) -> Sink {
         if let Outcome::Ok(out) = fmt(&src, c, None, false) {
             let eol = if crlf { "\r\n" } else { "\n" };
             let a = match out.find("value_name") { Some(p) => p + "value_name".len(), None => return sink };
-            let next = if has_sep { "\tsecond_field = 2," } else { "}" };
+            let next_s = if has_sep { format!("{}second_field = 2,", ind) } else { "}".to_string() };
+            let next = next_s.as_str();
             let b = match out.rfind(&format!("{}{}", next, eol)) { Some(p) => p, None => return sink };
             if a > b {
                 return sink;
             }
             sink.q(
-                format!("tablefield {} {} {} {} {} {}", if crlf { "crlf" } else { "lf" }, hex(b"\t"), v_trail, has_sep as u8, p_lead, p_trail),
+                format!("tablefield {} {} {} {} {} {}", if crlf { "crlf" } else { "lf" }, hex(ind.as_bytes()), v_trail, has_sep as u8, p_lead, p_trail),
                 { let s = &out[a..b]; if s.is_empty() { "-".to_string() } else { hex(s.as_bytes()) } },
             );
         }
@@ -1087,6 +1105,7 @@ pub fn run_callarg(tier: &str, seed: u64) -> Sink {
         c.syntax = LuaVersion::Lua51;
         let crlf = r.chance(1, 3);
         c.line_endings = if crlf { LineEndings::Windows } else { LineEndings::Unix };
+        let ind = pick_indent(&mut r, &mut c);
         if !parses(&src, c.syntax) {
             return sink;
         }
@@ -1127,13 +1146,14 @@ pub fn run_callarg(tier: &str, seed: u64) -> Sink {
                 return sink;
             }
             let a = match out.find("value_name") { Some(p) => p + "value_name".len(), None => return sink };
-            let next = if has_sep { "\tsecond_argument" } else { ")" };
+            let next_s = if has_sep { format!("{}second_argument", ind) } else { ")".to_string() };
+            let next = next_s.as_str();
             let b = match out.rfind(&format!("{}{}", next, eol)) { Some(p) => p, None => return sink };
             if a > b {
                 return sink;
             }
             sink.q(
-                format!("callarg {} {} {} {} {} {}", if crlf { "crlf" } else { "lf" }, hex(b"\t"), v_trail, has_sep as u8, p_lead, p_trail),
+                format!("callarg {} {} {} {} {} {}", if crlf { "crlf" } else { "lf" }, hex(ind.as_bytes()), v_trail, has_sep as u8, p_lead, p_trail),
                 { let s = &out[a..b]; if s.is_empty() { "-".to_string() } else { hex(s.as_bytes()) } },
             );
         }
